@@ -74,6 +74,15 @@ theorem generated_window_error_eq_model (out : List TagCall) (pf : List Char) (h
     (afterRegistry pf hp hint n e lc out).map (fun o => (o.tags, o.preimage)) = .error ex :=
   wtg_error out pf hint hp n e lc ex hr
 
+/-- **the glue**: everything `check_plurals` does after the header value has parsed, as regenerated (`check_plurals_tail`: junk tags, the
+    number-of-forms tag, the three seams, `unusual_plural_forms = False`, `codomain_limit = 200`), is the model's `analyse` — tags and
+    `ctx.plural_preimage`.  In particular the regenerated `codomain_limit` is the model's `codomainLimit`: another value breaks this proof. -/
+theorem generated_check_plurals_tail_eq_model (inp : Input) (pf : List Char) (hp : Bool) (expected : List (Nat × List Char)) (hint : Extra)
+    (tags0 : List TagCall) (n : Nat) (e : Expr) (lj rj : List Char) :
+    ChkPlurals.check_plurals_tail pluralOps tags0 none pf hint hp expected inp.correct n e lj rj =
+      (analyse inp pf hp expected hint tags0 n e lj rj).map (fun o => (o.tags, o.preimage)) :=
+  tail_eq inp pf hp expected hint tags0 n e lj rj
+
 /-! ## headline corollaries, about the regenerated definitions -/
 
 /-- **format_range_sound**, of the regenerated function: what the final loop prints for a gap is the model's rendering -/
